@@ -31,7 +31,22 @@
 using namespace muscle;
 using namespace refl;
 
-typedef World<HSession> W;
+// Session ids come from a file-static counter of the library that cannot be reset, and their size matters: the iteration
+// order and the hash sums of the pooled subscriber tables depend on them ({1->2} and {2->1} share a sum only while ids are as
+// small as counts).  Every case builds its own server, so it numbers its sessions 0,1,2,.. itself, exactly as a freshly
+// started server process would; a case then behaves the same whatever its position in the input (and when replayed alone).
+static uint32 g_nextSessionID = 0;
+class MSession : public HSession
+{
+public:
+   MSession()
+   {
+      _sessionID = g_nextSessionID++;
+      char buf[64]; muscleSprintf(buf, UINT32_FORMAT_SPEC, _sessionID);
+      _idString = buf;
+   }
+};
+typedef World<MSession> W;
 
 static std::string itos(long v) {std::ostringstream o; o << v; return o.str();}
 
@@ -296,6 +311,7 @@ static void RunCase(long k, const std::string & line)
    // label starting with 'z': the "malformed path" stream (paths / patterns with empty clauses, e.g. a trailing '/').  The mirror
    // oracle is not applied there (PathMatcher::MatchesPath tokenises away empty clauses); the refcount oracle below always is.
    const bool malformed = (bar > 0)&&(line[0] == 'z');
+   g_nextSessionID = 0;
    W w;
    Ctx c; c.w = &w; c.quietUsed = false;
    int j = -1;
